@@ -67,6 +67,7 @@ type STypeExpr struct {
 	Ptr   bool
 	Slice bool
 	Set   bool
+	Arr   bool // arr[T]: the contents of a backing array, a total map from indices to T
 	Map   bool
 	Pkg   string
 	Name  string
@@ -137,6 +138,12 @@ func lexSpec(src string) ([]stok, error) {
 		t := raw[i]
 		if t.tok == token.LSS && i+2 < len(raw) && raw[i+1].tok == token.EQL && raw[i+2].tok == token.GTR &&
 			raw[i+1].pos == t.pos+1 && raw[i+2].pos == t.pos+3 {
+			out = append(out, stok{token.ILLEGAL, "<==>", t.pos})
+			i += 2
+			continue
+		}
+		if t.tok == token.LEQ && i+2 < len(raw) && raw[i+1].tok == token.ASSIGN && raw[i+2].tok == token.GTR &&
+			raw[i+1].pos == t.pos+2 && raw[i+2].pos == t.pos+3 {
 			out = append(out, stok{token.ILLEGAL, "<==>", t.pos})
 			i += 2
 			continue
@@ -285,6 +292,12 @@ func (p *sparser) typeExpr() STypeExpr {
 		return STypeExpr{Slice: true, Elem: &el}
 	}
 	name := p.ident()
+	if name == "arr" && p.isLit("[") {
+		p.i++
+		el := p.typeExpr()
+		p.expect("]")
+		return STypeExpr{Arr: true, Elem: &el}
+	}
 	if name == "set" && p.isLit("[") {
 		p.i++
 		el := p.typeExpr()
